@@ -7,7 +7,7 @@ import hstress
 import inflight
 import serverlife
 import shutdown
-from common import Scratch, Verdict, build_harness, log, write_evidence
+from common import Infra, Scratch, Verdict, build_harness, log, run_tlc, write_evidence
 
 
 def run_inflight(prop, tier):
@@ -46,6 +46,22 @@ def run_inflight(prop, tier):
             connres = conn.run_conn(s, tier, tb, c10=True)
             for x in connres["violations"]:
                 v.violation(x["sig"], x["detail"], x["replay"])
+        live = None
+        if prop == "C16":
+            # liveness of the handler design (TLC, under weak fairness of the clock): every accepted request is eventually
+            # completed - by its response, by close, or by the read timeout; without fairness (time need not pass) the
+            # property must fail, which is the non-vacuity control
+            cfg = "InFlightSeqLive.cfg" if tier == "thorough" else "InFlightSeqLiveQuick.cfg"
+            lres = run_tlc(s, "InFlightSeq", cfg=cfg, timeout=3600, copy=True)
+            if not lres.ok:
+                raise Infra("InFlightSeq %s: TLC reports %s (design-level liveness; not a verdict about the code)\n%s" % (cfg, lres.violated, lres.stdout[-3000:]))
+            with open(s.file("InFlightSeqLiveUnfair.cfg"), "w") as f:
+                f.write(open(s.file("InFlightSeqLiveQuick.cfg")).read().replace("SPECIFICATION FairSpec", "SPECIFICATION Spec"))
+            nres = run_tlc(s, "InFlightSeq", cfg="InFlightSeqLiveUnfair.cfg", timeout=3600, copy=False)
+            if nres.violated is None:
+                raise Infra("InFlightSeq liveness control: EventuallyCompleted holds even if time never passes")
+            live = dict(config=cfg, states=lres.distinct, property="EventuallyCompleted under WF(Tick)", control_without_fairness=nres.violated)
+            log("TLC InFlightSeq %s: EventuallyCompleted holds under WF(Tick) on %d states; fails without fairness (%s) as required" % (cfg, lres.distinct, nres.violated))
         if prop == "C16":
             # connection level: a fault (close of either side, context cancel, loss of the peer) at every step of every
             # Conn.tla session, on the three rigs
@@ -107,6 +123,7 @@ def run_inflight(prop, tier):
                                            "panics, accepted connections closed, later calls refused, no goroutine left; plus servers closed while their "
                                            "peers drop (free-running)") if sl else None),
                    shutdown_level=({k: sd[k] for k in sd if k != "violations"} if sd else None),
+                   handler_liveness=live,
                    known_findings=sorted(v.known_hits))
         write_evidence(prop, tier, "model_checking", cov, time.time() - t0, unlisted,
                        assumptions=["TLC 1.8.0", "Go runtime testing/synctest fake clock (go1.26.8)",
